@@ -1756,6 +1756,10 @@ func (a *align) Pssm(log bool, pseudocount float64, normalization int) (pssm map
 	var normfactors map[uint8]float64
 	/* Entropy at each position */
 	var entropy []float64
+	if a.NbSequences() == 0 {
+		err = errors.New("cannot compute a pssm from an alignment without sequences")
+		return
+	}
 	alphabet = a.AlphabetCharacters()
 	for _, c := range alphabet {
 		if _, ok := pssm[c]; !ok {
